@@ -16,6 +16,7 @@ package peersharing
 
 import (
 	"fmt"
+	"sync"
 
 	"github.com/blinklabs-io/gouroboros/protocol"
 )
@@ -25,6 +26,7 @@ type Client struct {
 	*protocol.Protocol
 	config          *Config
 	callbackContext CallbackContext
+	busyMutex       sync.Mutex
 	sharePeersChan  chan []PeerAddress
 }
 
@@ -77,22 +79,27 @@ func (c *Client) GetPeers(amount uint8) ([]PeerAddress, error) {
 			"role", "client",
 			"connection_id", c.callbackContext.ConnectionId.String(),
 		)
+	// Only one request can be outstanding at a time, and the response must
+	// go to the caller that made the request
+	c.busyMutex.Lock()
+	defer c.busyMutex.Unlock()
 	msg := NewMsgShareRequest(amount)
 	if err := c.SendMessage(msg); err != nil {
 		return nil, err
 	}
-	peers, ok := <-c.sharePeersChan
-	if !ok {
+	select {
+	case peers := <-c.sharePeersChan:
+		return peers, nil
+	case <-c.DoneChan():
 		return nil, protocol.ErrProtocolShuttingDown
 	}
-	return peers, nil
 }
 
 func (c *Client) messageHandler(msg protocol.Message) error {
 	var err error
 	switch msg.Type() {
 	case MessageTypeSharePeers:
-		c.handleSharePeers(msg)
+		err = c.handleSharePeers(msg)
 	default:
 		err = fmt.Errorf(
 			"%s: received unexpected message type %d",
@@ -103,7 +110,7 @@ func (c *Client) messageHandler(msg protocol.Message) error {
 	return err
 }
 
-func (c *Client) handleSharePeers(msg protocol.Message) {
+func (c *Client) handleSharePeers(msg protocol.Message) error {
 	c.Protocol.Logger().
 		Debug("share peers",
 			"component", "network",
@@ -112,5 +119,10 @@ func (c *Client) handleSharePeers(msg protocol.Message) {
 			"connection_id", c.callbackContext.ConnectionId.String(),
 		)
 	msgSharePeers := msg.(*MsgSharePeers)
-	c.sharePeersChan <- msgSharePeers.PeerAddresses
+	select {
+	case c.sharePeersChan <- msgSharePeers.PeerAddresses:
+	case <-c.DoneChan():
+		return protocol.ErrProtocolShuttingDown
+	}
+	return nil
 }
